@@ -5,7 +5,7 @@ From SioV Require Import Eio.Payload Eio.WTFrame Eio.CodecSpec.
 Local Open Scope N_scope.
 
 (** ** Data descriptions shared with the harness *)
-Inductive dspec := DLit (b : bytes) | DGen (seed len : N).
+Inductive dspec := DLit (b : bytes) | DGen (seed len : N) | DPat (len : N).
 
 (** harness genBytes: x <- (x*75+74) mod 65537, byte = x mod 256 *)
 Definition gen_bytes (seed len : N) : bytes :=
@@ -13,15 +13,40 @@ Definition gen_bytes (seed len : N) : bytes :=
               (fun st : N * bytes => let x' := (fst st * 75 + 74) mod 65537 in (x', x' mod 256 :: snd st))
               (seed mod 65537, []))).
 
+(** harness patBytes: byte i = i mod 251, built by doubling a 251-byte block (no arithmetic per
+    byte, so megabytes are cheap) *)
+Definition block251 : bytes := map N.of_nat (seq 0 251).
+
+Fixpoint dbl (k : nat) (l : bytes) : bytes :=
+  match k with O => l | S k' => dbl k' (l ++ l) end.
+
+Definition pat_bytes (n : N) : bytes :=
+  takeN n (dbl (N.to_nat (N.size (n / 251)) + 1) block251).
+
 Definition data_of (d : dspec) : bytes :=
-  match d with DLit b => b | DGen s l => gen_bytes s l end.
+  match d with DLit b => b | DGen s l => gen_bytes s l | DPat l => pat_bytes l end.
 
 Definition adler32 (bs : bytes) : N :=
   let st := fold_left (fun (st : N * N) d => let a' := (fst st + d) mod 65521 in (a', (snd st + a') mod 65521))
                       bs (1, 0) in
   snd st * 65536 + fst st.
 
-Inductive wobs := WLit (b : bytes) | WSum (len : N) (pre : bytes) (adler : N).
+Inductive wobs :=
+| WLit (b : bytes)
+| WSum (len : N) (pre : bytes) (adler : N)
+| WSamp (len : N) (pre suf : bytes) (samples : list (N * N)).
+    (* samples: (distance from the previous sampled position, byte), positions ascending *)
+
+(** One pass over the data: the bytes at the sampled positions. *)
+Fixpoint samples_ok (w : bytes) (ds : list (N * N)) : bool :=
+  match ds with
+  | [] => true
+  | dv :: ds' =>
+      match dropN (fst dv) w with
+      | x :: w' => (x =? snd dv) && samples_ok (x :: w') ds'
+      | [] => false
+      end
+  end.
 
 Definition beq (a b : bytes) : bool := list_eqb N.eqb a b.
 
@@ -29,9 +54,14 @@ Definition wire_matches (w : bytes) (o : wobs) : bool :=
   match o with
   | WLit b => beq w b
   | WSum len pre ad => (nlen w =? len) && beq (takeN (nlen pre) w) pre && (adler32 w =? ad)
+  | WSamp len pre suf samples =>
+      (nlen w =? len) && beq (takeN (nlen pre) w) pre
+      && match suf with [] => true | _ => beq (dropN (len - nlen suf) w) suf end
+      && samples_ok w samples
   end.
 
-Definition wobs_len (o : wobs) : N := match o with WLit b => nlen b | WSum l _ _ => l end.
+Definition wobs_len (o : wobs) : N :=
+  match o with WLit b => nlen b | WSum l _ _ => l | WSamp l _ _ _ => l end.
 
 Inductive pobs := POk (t : N) (b : bool) (d : wobs) | PErr | PPanic.
 
@@ -207,15 +237,28 @@ Definition oracle_wt (c : wt_case) : bool :=
       else packet_matches p dec && (rest =? nlen trail)).
 
 (** every length: header form and round trip (data stay in the harness) *)
-Definition wtlen_case := (N * bool * bytes * N * cls * bool * N * list N * N)%type.
+Definition wtlen_case := (N * bool * bytes * N * cls * bool * N * list N * N * bool * bool)%type.
+
+(** The frame that follows on the stream (harness nextFrameBytes): text MESSAGE "next". *)
+Definition follow_frame : bytes := [5; 52; 110; 101; 120; 116].
+
+(** The sizes of the Read buffers do not depend on the data, so the model is run on a frame of
+    zeros: cheap enough for megabytes.  Done for every length above 64 KiB (where the buffer
+    grows), for the small ones and for a stride in between. *)
+Definition model_reads (n : N) (hdr : bytes) : list N :=
+  reads_of (snd (next_packet (Some (Z.of_N n)) [hdr ++ repeat 0 (N.to_nat n) ++ follow_frame])).
 
 Definition agree_wtlen (c : wtlen_case) : bool :=
-  let '(n, b, hdr, wlen, cl, same, rest, reqs, alloc) := c in
-  beq hdr (wt_header n b) && (wlen =? nlen hdr + n).
+  let '(n, b, hdr, wlen, cl, same, rest, reqs, alloc, next, rej) := c in
+  beq hdr (wt_header n b) && (wlen =? nlen hdr + n)
+  && (if (65536 <? n) || (n <? 1500) || (n mod 97 =? 0) then nbeq (model_reads n hdr) reqs else true).
+
+Definition sumN (l : list N) : N := fold_left N.add l 0.
 
 Definition oracle_wtlen (c : wtlen_case) : bool :=
-  let '(n, b, hdr, wlen, cl, same, rest, reqs, alloc) := c in
-  (cl =? 0) && same && (rest =? 1)
+  let '(n, b, hdr, wlen, cl, same, rest, reqs, alloc, next, rej) := c in
+  (cl =? 0) && same && (rest =? nlen follow_frame) && next && rej
+  && (sumN reqs =? wlen)      (* with the whole frame available the reader asks for exactly the frame *)
   && reads_bounded (Some (Z.of_N n)) (PErr, rest, reqs, wlen, alloc)
   && beq hdr (spec_header n b) && (wlen =? nlen hdr + n).
 
